@@ -25,9 +25,12 @@ from mc.pool import run_shards
 ID = "C07"
 LEVEL = "model_checking"
 
-KINDS = ("nearest", "cumulative", "snearest", "scumulative", "cnearest", "ccumulative", "event-inf", "event-zero", "pass", "ema", "ca")
+KINDS = ("nearest", "cumulative", "nearest-tol", "cumulative-tol", "snearest", "scumulative", "cnearest", "ccumulative", "event-inf", "event-zero", "pass", "ema", "ca")
 BOOL_LETTERS = [(0.0, 0.0), (0.0, 1.0), (1.0, 0.0), (1.0, 1.0)]
 REAL_LETTERS = [(0.0, 0.5), (0.5, -1.0), (-1.0, 2.0), (2.0, 0.0)]
+# target 0.75 with tolerance 0.25: 0.5 and 1.0 lie exactly on the tolerance boundary (they match), 0.25 and 0.0 do not
+TOL_LETTERS = [(0.0, 0.5), (0.5, 1.0), (1.0, 0.25), (0.25, 0.0)]
+TOL_TARGET, TOL = 0.75, 0.25
 ALPHA = 0.25
 SCALE = 0.5
 
@@ -42,6 +45,10 @@ def make(kind, dt, tau, amp, duration, inplace):
         return NearestTraceReducer(dt, tau, amp, 1.0, **kw)
     if kind == "cumulative":
         return CumulativeTraceReducer(dt, tau, amp, 1.0, **kw)
+    if kind == "nearest-tol":
+        return NearestTraceReducer(dt, tau, amp, TOL_TARGET, TOL, **kw)
+    if kind == "cumulative-tol":
+        return CumulativeTraceReducer(dt, tau, amp, TOL_TARGET, TOL, **kw)
     if kind == "snearest":
         return ScaledNearestTraceReducer(dt, tau, amp, SCALE, crit, **kw)
     if kind == "scumulative":
@@ -64,6 +71,8 @@ def make(kind, dt, tau, amp, duration, inplace):
 
 
 def letters_for(kind):
+    if kind.endswith("-tol"):
+        return TOL_LETTERS
     return BOOL_LETTERS if kind in ("nearest", "cumulative") else REAL_LETTERS
 
 
@@ -73,22 +82,24 @@ def closed_form(kind, events, tau, amp, e):
     out = []
     for i, (t, obs, cond) in enumerate(events):
         x = obs[e]
-        if kind in ("nearest", "cumulative", "snearest", "scumulative", "cnearest", "ccumulative"):
+        if kind in ("nearest", "cumulative", "nearest-tol", "cumulative-tol", "snearest", "scumulative", "cnearest", "ccumulative"):
             def match(j):
                 o, c = events[j][1][e], events[j][2][e]
                 if kind in ("nearest", "cumulative"):
                     return o == 1.0
+                if kind.endswith("-tol"):
+                    return abs(o - TOL_TARGET) <= TOL
                 if kind in ("snearest", "scumulative"):
                     return o > 0.25
                 return bool(c)
 
             def contrib(j):
-                if kind in ("nearest", "cumulative"):
+                if kind in ("nearest", "cumulative", "nearest-tol", "cumulative-tol"):
                     return amp
                 return SCALE * events[j][1][e] + amp
 
             js = [j for j in range(i + 1) if match(j)]
-            if kind in ("nearest", "snearest", "cnearest"):
+            if kind in ("nearest", "nearest-tol", "snearest", "cnearest"):
                 v = contrib(js[-1]) * math.exp(-(t - events[js[-1]][0]) / tau) if js else 0.0
             else:
                 v = sum(contrib(j) * math.exp(-(t - events[j][0]) / tau) for j in js)
@@ -109,7 +120,7 @@ def closed_form(kind, events, tau, amp, e):
 
 
 def interp_rule(kind, older, newer, elapsed, dt, tau):
-    if kind in ("nearest", "cumulative", "snearest", "scumulative", "cnearest", "ccumulative"):
+    if kind in ("nearest", "cumulative", "nearest-tol", "cumulative-tol", "snearest", "scumulative", "cnearest", "ccumulative"):
         return older * math.exp(-elapsed / tau)
     if kind.startswith("event"):
         return older + elapsed
@@ -271,7 +282,8 @@ def functional_shard(T):
         "trace_nearest_scaled": lambda o, s: inferno.trace_nearest_scaled(o, s, decay=decay, amplitude=amp, scale=SCALE, matchfn=lambda x: x > 0.25),
         "trace_cumulative_scaled": lambda o, s: inferno.trace_cumulative_scaled(o, s, decay=decay, amplitude=amp, scale=SCALE, matchfn=lambda x: x > 0.25),
         "trace_cumulative_value": lambda o, s: inferno.trace_cumulative_value(o, s, decay=decay, scale=SCALE),
-        "trace_nearest_tol": lambda o, s: inferno.trace_nearest(o, s, decay=decay, amplitude=amp, target=0.75, tolerance=0.3),
+        "trace_nearest_tol": lambda o, s: inferno.trace_nearest(o, s, decay=decay, amplitude=amp, target=0.75, tolerance=0.25),
+        "trace_cumulative_tol": lambda o, s: inferno.trace_cumulative(o, s, decay=decay, amplitude=amp, target=0.75, tolerance=0.25),
     }
     for name, f in fns.items():
         for hist in itertools.product((0.0, 1.0), repeat=T):
